@@ -55,7 +55,8 @@ class DuctRecorder:
             finally:
                 rec.rodded_event(self, pre, avg_mw, h_int, h_byp, p_duct,
                                  np.array(t_gap, copy=True),
-                                 np.array(htc_gap, copy=True), adiabatic)
+                                 np.array(htc_gap, copy=True),
+                                 rec.truth(adiabatic))
 
         def sn_calc(self, temp_gap, htc_gap, adiabatic=False):
             pre = {k: np.array(v, copy=True) for k, v in self.temp.items()}
@@ -66,11 +67,20 @@ class DuctRecorder:
             finally:
                 rec.unrodded_event(self, pre, avg_mw, hh,
                                    np.array(temp_gap, copy=True),
-                                   np.array(htc_gap, copy=True), adiabatic)
+                                   np.array(htc_gap, copy=True),
+                                   rec.truth(adiabatic))
         RR._calc_duct_temp = rr_calc
         SN._calc_duct_temp = sn_calc
         self._saved = [(RR, o_rr), (SN, o_sn)]
         return self
+
+    # whether the outer boundary is adiabatic: from the input (set by the
+    # driver of a recorded sweep) if known, else the flag the routine was given
+    expect_adiabatic = None
+
+    def truth(self, flag):
+        return bool(flag) if self.expect_adiabatic is None \
+            else bool(self.expect_adiabatic)
 
     def __exit__(self, *a):
         for cls, f in self._saved:
